@@ -596,20 +596,67 @@ class TypeLogDict(dict):
             return v
 
 
+# Everything below touches PRIVATE representation of glom's caches.  It is mechanism-level and
+# optional: when an attribute is missing or has another shape the part is skipped and named in
+# UNOBSERVABLE (reported in the evidence as mechanism_unobservable); it is never a failure and
+# never a violation.  The law-level verdicts use public behaviour only.
+UNOBSERVABLE = set()
+
+
 def default_registry():
-    return _DEFAULT_SCOPE[TargetRegistry]
+    try:
+        reg = _DEFAULT_SCOPE[TargetRegistry]
+    except Exception:   # noqa
+        reg = None
+    if reg is None or not isinstance(getattr(reg, '_type_cache', None), dict):
+        UNOBSERVABLE.add('TargetRegistry._type_cache')
+        return None
+    return reg
+
+
+def _path_cache():
+    cache = getattr(Path, '_CACHE', None)
+    if (isinstance(cache, dict) and set(cache.keys()) == {True, False}
+            and all(isinstance(v, dict) for v in cache.values())):
+        return cache
+    UNOBSERVABLE.add('Path._CACHE')
+    return None
+
+
+def set_max_cache(n):
+    """Path._MAX_CACHE := the model constant (only changes when the memo stops growing)"""
+    if type(getattr(Path, '_MAX_CACHE', None)) is int:
+        Path._MAX_CACHE = n
+    else:
+        UNOBSERVABLE.add('Path._MAX_CACHE')
+
+
+def pristine_problem():
+    """why this interpreter does not look freshly imported (None if it does); looks only at
+    what is observable"""
+    if getattr(glom.core, 'PATH_STAR', True) is not True:
+        return 'PATH_STAR is off'
+    cache = _path_cache()
+    if cache is not None and any(len(v) for v in cache.values()):
+        return 'the path cache is not empty'
+    if getattr(Path, '_STAR_WARNED', False):
+        return 'the wildcard warning was already given'
+    return None
 
 
 def install_logs(log):
     """replace glom's cache dicts (objects held in glom's own attributes) by logging ones"""
-    Path._CACHE = {True: PathLogDict(log, True), False: PathLogDict(log, False)}
-    default_registry()._type_cache = TypeLogDict(log)
+    if _path_cache() is not None:
+        Path._CACHE = {True: PathLogDict(log, True), False: PathLogDict(log, False)}
+    reg = default_registry()
+    if reg is not None:
+        reg._type_cache = TypeLogDict(log)
 
 
 def register_logged(r, log=None):
     apply_registration(r)
     reg = default_registry()
-    if log is not None and not isinstance(reg._type_cache, TypeLogDict):
+    if reg is not None and log is not None and not isinstance(reg._type_cache, TypeLogDict):
         # register() installed a new memo dict: keep observing it (contents preserved, unlogged)
         new = TypeLogDict(log)
         for k, v in dict.items(reg._type_cache):
@@ -618,13 +665,25 @@ def register_logged(r, log=None):
 
 
 def cache_state():
-    """what the model calls pathCache / typeCache, read from the real objects"""
-    reg = default_registry()
-    return dict(pct=[str(k) for k in dict.keys(Path._CACHE[True])],
-                pcf=[str(k) for k in dict.keys(Path._CACHE[False])],
-                tck=[[type_name(k[0]), k[1], handler_name(v)] for k, v in dict.items(reg._type_cache)])
+    """what the model calls pathCache / typeCache, read from the real objects (None: unobservable)"""
+    cache, reg = _path_cache(), default_registry()
+    if cache is None or reg is None:
+        return None
+    try:
+        return dict(pct=[str(k) for k in dict.keys(cache[True])],
+                    pcf=[str(k) for k in dict.keys(cache[False])],
+                    tck=[[type_name(k[0]), k[1], handler_name(v)] for k, v in dict.items(reg._type_cache)])
+    except Exception:   # noqa
+        UNOBSERVABLE.add('cache contents')
+        return None
 
 
+def observability():
+    """(run in a child) which mechanism-level observations are unavailable on this glom"""
+    install_logs(EventLog())
+    set_max_cache(1)
+    cache_state()
+    return sorted(UNOBSERVABLE)
 # ---- vacuity: which steps / branches of the mechanism did a set of recorded histories take -------
 STEP_KINDS = {'begin', 'toggle', 'reg', 'yield', 'pread', 'pcreate', 'pwrite', 'pfetch',
               'tcheck', 'tcompute', 'twrite', 'tfetch'}
